@@ -21,7 +21,7 @@ def run(ctx):
     W.report_all(ctx, rej, abn)
     ctx.sample({"item": items[0]["name"], "cfg": items[0]["cfg"], "adds": [[k.hex(), v] for k, v in items[0]["adds"]][:8]})
     ctx.sample({"item": items[-1]["name"], "cfg": items[-1]["cfg"], "class": items[-1].get("klass"), "n_adds": len(items[-1]["adds"])})
-    ctx.assumptions += ["value bytes longer than 96 are compared by length and 64-bit FNV hash", "TLC, refcodec, driver logging"]
+    ctx.assumptions += ["value bytes longer than 1024 are compared by length and 64-bit FNV hash", "TLC, refcodec, driver logging"]
     cov = {"states": ctx.cov.get("states", 0), "transitions": ctx.cov.get("transitions", 0),
            "traces_validated_against_impl": ctx.cov.get("traces_validated_against_impl", 0),
            "evaluations": ctx.cov.get("trace_events", 0), "distinct_nontrivial": ctx.cov.get("files", 0), "exhaustive": False}
